@@ -78,7 +78,16 @@ type CallSiteAssert struct {
 	Callee string
 	N      int
 	C      *Clause
+	Set    string // `callsite f#n sets $g := e`: ghost updated at this call (C is the new value)
 	seen   bool
+}
+
+// GhostUpdate: `onacquire $g := e` (ghost updated right after the function's first lock acquisition) and
+// `onacquire assume e` (an environment fact about that moment, listed in the evidence).
+type GhostUpdate struct {
+	Ghost  string
+	C      *Clause
+	Assume bool
 }
 
 type FnContract struct {
@@ -102,6 +111,7 @@ type FnContract struct {
 	ConsType  string
 	CallSites []*CallSiteAssert
 	Captures  []*Clause
+	OnAcquire []*GhostUpdate
 	AbsModifies []string // ghosts havocked at call sites on behalf of the abstraction clauses
 	AbsEnsure []*Clause // assumed postconditions relating an abstract ghost view to the result (used by callers, not checked in the body; listed in the evidence)
 	EnvAssume []*Clause // environment assumptions on the state at the first acquire, used only for obligations of the clause's properties
@@ -232,7 +242,7 @@ func parseLabel(s string) (label string, tags []string, rest string) {
 var directiveKW = map[string]bool{"closeonly": true, "assumption": true, "autotagfn": true, "globalinv": true, "uf": true, "tracked": true, "cond": true, "callers": true, "racestrict": true, "sweepwrappers": true, "rawaxiom": true, "autotag": true, "option": true, "import": true, "ghost": true, "pred": true, "inv": true, "lockinv": true, "protect": true,
 	"typeinv": true, "lockorder": true, "guards": true, "func": true, "dyn": true, "lemma": true, "mono": true, "spec": true}
 var clauseKW = map[string]bool{"requires": true, "ensures": true, "loop": true, "locks": true, "modifies": true, "inline": true,
-	"trusted": true, "entry": true, "optional": true, "blocking": true, "pure": true, "callsite": true, "captures": true, "envassume": true, "absensures": true, "absmodifies": true,
+	"trusted": true, "entry": true, "optional": true, "blocking": true, "pure": true, "callsite": true, "captures": true, "envassume": true, "absensures": true, "absmodifies": true, "onacquire": true,
 	"interruptible_by": true, "constructor": true, "delta": true, "decreases": true, "fresh_writes": true, "onassign": true, "deadreturn": true}
 
 // loadSpecFile parses one contract file. goFile: lines are taken from //@ comments.
@@ -291,6 +301,9 @@ func (db *SpecDB) loadSpecFile(path string, pkgPath string, goFile bool) {
 	}
 	if strings.Contains(string(data), "assume ") && goFile {
 		for _, it := range items {
+			if it.kw == "onacquire" {
+				continue // a stated environment fact, copied into the evidence (see the onacquire case)
+			}
 			if strings.HasPrefix(it.text, "assume ") || it.kw == "assume" {
 				db.AssumeScan = append(db.AssumeScan, fmt.Sprintf("%s:%d", path, it.n))
 			}
@@ -564,6 +577,16 @@ func (db *SpecDB) loadSpecFile(path string, pkgPath string, goFile bool) {
 				cur.Ensures = append(cur.Ensures, mkClause(it.text, it.n))
 			case "captures":
 				cur.Captures = append(cur.Captures, mkClause(it.text, it.n))
+			case "onacquire":
+				t := strings.TrimSpace(it.text)
+				if strings.HasPrefix(t, "assume ") {
+					cur.OnAcquire = append(cur.OnAcquire, &GhostUpdate{Assume: true, C: mkClause(strings.TrimSpace(t[7:]), it.n)})
+					db.Assumed = append(db.Assumed, t[7:]+"  (assumed at the first lock acquisition of "+cur.Key+")")
+				} else if i := strings.Index(t, ":="); i > 0 {
+					cur.OnAcquire = append(cur.OnAcquire, &GhostUpdate{Ghost: strings.TrimSpace(t[:i]), C: mkClause(strings.TrimSpace(t[i+2:]), it.n)})
+				} else {
+					db.Errors = append(db.Errors, fmt.Sprintf("%s:%d: bad onacquire clause", path, it.n))
+				}
 			case "absmodifies":
 				for _, g := range strings.Split(it.text, ",") {
 					if g = strings.TrimSpace(g); g != "" {
@@ -665,6 +688,21 @@ func (db *SpecDB) loadSpecFile(path string, pkgPath string, goFile bool) {
 			case "callsite":
 				// callsite callee#n asserts [label] expr
 				f := strings.SplitN(it.text, " ", 3)
+				if len(f) >= 3 && f[1] == "sets" {
+					// callsite callee#n sets $g := expr
+					i := strings.Index(f[2], ":=")
+					if i < 0 {
+						db.Errors = append(db.Errors, fmt.Sprintf("%s:%d: bad callsite sets clause", path, it.n))
+						continue
+					}
+					callee, n := f[0], 1
+					if j := strings.Index(callee, "#"); j >= 0 {
+						n, _ = strconv.Atoi(callee[j+1:])
+						callee = callee[:j]
+					}
+					cur.CallSites = append(cur.CallSites, &CallSiteAssert{Callee: callee, N: n, Set: strings.TrimSpace(f[2][:i]), C: mkClause(strings.TrimSpace(f[2][i+2:]), it.n)})
+					continue
+				}
 				if len(f) < 3 || f[1] != "asserts" {
 					db.Errors = append(db.Errors, fmt.Sprintf("%s:%d: bad callsite clause", path, it.n))
 					continue
